@@ -152,6 +152,7 @@ func (s *SSTableManager) candidateTablesForCompaction(compactionMaxSizeBytes uin
 	return compactionAction{
 		pathsToCompact: selectedPaths,
 		totalRecords:   numRecords,
+		includesOldest: len(selectedForCompaction) > 0 && selectedForCompaction[0],
 	}
 }
 
